@@ -3,7 +3,8 @@ correspondence of Alg/Enum.v, Alg/Golden.v (binary64, bit for bit), Alg/CoordDes
 plus oracles on the implementation (brute force over the grid, documented grids, box / cost / slack checks).
 
 Case kinds: 'enum' (meio_by_enumeration), 'tad' (truncate_and_discretize), 'groups' (_base_stock_group_assignments),
-'simseed' (simulation-based enumeration: seed handling, incl. sim_rand_seed=0), 'golden' (golden_section_search), 'cd' (meio_by_coordinate_descent), 'simobj' (simulation / SSM objectives, oracle only).
+'simseed' (simulation-based enumeration: seed handling, incl. sim_rand_seed=0), 'golden' (golden_section_search), 'cd' (meio_by_coordinate_descent), 'simobj' (simulation / SSM objectives, oracle only),
+'simopt' (built-in simulation objective of enumeration and coordinate descent on base-stock and echelon base-stock networks, oracle only).
 All numbers in a case are JSON-native: rationals as 'p/q' strings, binary64 values as float.hex() strings."""
 import copy, io, itertools, math, contextlib
 from fractions import Fraction
@@ -11,13 +12,21 @@ from vlib import *
 
 RULE = ('enum: serial networks with 1..4 nodes (random index sets and orders), groups None or disjoint sets, grids explicit / (lo,hi,step) / '
         '(lo,hi,num) / defaults as singleton, dict or list, objectives = expression trees (separable and coupled quadratics, piecewise-linear, '
-        'plateaus, constants) with coefficients k/4 (exact regime); tad: every argument combination incl. truncation_hi=0, negative lo, '
+        'plateaus, constants) with coefficients k/4 (exact regime), at their own magnitude or (38%) with a fixed-cost term +-K, K in 1e4..1e9 / 2^20..2^30, and/or a scale 2^-10..2^-40 '
+        '(still exact in binary64; distinct costs on the grid then differ by less than 1e-5 of their size or less than 1e-8); tad: every argument combination incl. truncation_hi=0, negative lo, '
         'step 0 / negative / larger than the range, hi<lo, inexact decimal steps; groups: disjoint and overlapping sets; golden: intervals '
         '(also with a > b, of zero width, or narrower than tol in either orientation), tol 1e-2..1e-8, unimodal functions ((x-c)^2 forms, expanded quadratics, |x-c|, asymmetric '
         'piecewise-linear, K/x+hx, linear) with arbitrary binary64 coefficients; cd: boxes (some given as (upper, lower) end), convex quadratics / piecewise-linear, groups, '
-        'start inside or outside the box; simseed: simulation-based meio_by_enumeration on 1..3-node serial systems, tiny grids, sim_rand_seed 0 and non-zero, '
+        'start inside or outside the box (per group), or initial_solution omitted (documented default: total mean demand), search_lo / search_hi omitted (0 / 3*lead time*mean demand), '
+        'single-point ranges search_lo == search_hi for some or all groups (30% of the cases) with the start on the point or elsewhere; simseed: simulation-based meio_by_enumeration on 1..3-node serial systems, tiny grids, sim_rand_seed 0 and non-zero, '
+        'and fine grids (5..9 levels with a dyadic step 2^-12..2^-30, in increasing or arbitrary order) on which neighbouring costs differ by a tiny fraction of the cost, '
         'without groups and (at least every other case) with a group of two nodes, arbitrary levels on the network before the call, each call '
-        'twice from different global RNG states, against an independent seeded re-simulation of every grid vector. non-trivial = enum: grid has >1 vector and the objective is not constant on it; tad: >1 grid point; '
+        'twice from different global RNG states, against an independent seeded re-simulation of every grid vector; simopt: the built-in simulation objective (objective_function omitted) of coordinate descent '
+        'and enumeration on 2..3-node serial systems with base-stock (BS) and echelon base-stock (EBS) policies, seed 0 / non-zero, 1-2 trials of 15-20 periods (quick), '
+        'groups none or a pair, start given or omitted, levels on the network before the call different from every candidate: reported cost = independent seeded '
+        'simulation at the returned vector (EBS: vector read as the policies\' own levels or as local levels), no better grid vector / inside the box and no worse than '
+        'the start within (#groups)*(sum of cost rates)*line_search_tol/2 + 1%; enum and cd (20% of the cases each): the same call repeated with print_solutions / '
+        'progress_bar / verbose switched on must return exactly the silent result. non-trivial = enum: grid has >1 vector and the objective is not constant on it; tad: >1 grid point; '
         'groups: at least one set of size>1; golden: the loop runs (n>=2); cd: more than one sweep or more than one group. '
         'distinct = distinct case contents.')
 
@@ -178,15 +187,33 @@ def gen_obj(rng, n, convex=False):
         return kind, ['max', base, C(q(0, 20))]
     raise ValueError(kind)
 
+
+OFFSETS = [10 ** 4, 10 ** 5, 250000, 10 ** 6, 2 * 10 ** 6, 2 ** 20, 10 ** 7, 2 ** 24, 10 ** 8, 10 ** 9, 2 ** 30]
+
+
+def gen_magnitude(rng, obj):
+    """the same objective at another magnitude, still computed exactly in binary64 (all values are multiples of 2^-6 below 2^21 before
+    the change): a large fixed-cost term +-K (neighbouring grid vectors then differ by a tiny fraction of the cost), a power-of-two
+    scale 2^-k (all costs and differences tiny in absolute terms), or both.  'no grid vector has lower objective' is about the exact
+    order of the objective values, whatever their size; returns (tag, expr)"""
+    u = rng.random()
+    if u < 0.62: return 'plain', obj
+    K = rng.choice(OFFSETS) * rng.choice([1, 1, 1, -1])
+    sc = Fraction(1, 2 ** rng.choice([10, 20, 27, 30, 40]))
+    off = lambda e: ADD(e, C(K)) if rng.random() < 0.5 else ADD(C(K), e)
+    if u < 0.86: return ('offset+' if K > 0 else 'offset-'), off(obj)
+    if u < 0.93: return 'scaled', MUL(C(sc), obj)
+    return 'offset-scaled', MUL(C(sc), off(obj))
+
 # ------------------------------------------------------------------------------------------------------------
 # networks, groups
 
-def make_network(nodes, mean=5, sd=1, lead_times=None):
+def make_network(nodes, mean=5, sd=1, lead_times=None, policy='BS'):
     from stockpyl.supply_chain_network import serial_system
     n = len(nodes)
     net = serial_system(num_nodes=n, node_order_in_system=list(nodes), local_holding_cost=[1] * n,
                         shipment_lead_time=lead_times or [1] * n, stockout_cost=[0] * (n - 1) + [10],
-                        demand_type='N', mean=mean, standard_deviation=sd, policy_type='BS', base_stock_level=[mean] * n)
+                        demand_type='N', mean=mean, standard_deviation=sd, policy_type=policy, base_stock_level=[mean] * n)
     return net
 
 
@@ -272,6 +299,19 @@ def doc_grid(lo, hi, step, num):
     if hi < lo: return None
     return [lo + i for i in range(int((hi - lo) // 1) + 1)]
 
+def loud_oracle(fn, c, r):
+    """the reporting options (print_solutions / progress_bar / verbose) are documented as display only: same returned vector and cost"""
+    loud = r[4] if len(r) > 4 else None
+    if loud is None: return []
+    what = '+'.join(c['loud']) if isinstance(c['loud'], list) else 'verbose'
+    if loud[0] == 'err':
+        return [('%s|%s-raises-%s' % (fn, what, loud[1]), 'the call that succeeds silently raises %s with %s switched on: %s' % (loud[1], what, loud[2]))]
+    same = set(loud[1]) == set(r[1]) and all(loud[1][k] == r[1][k] for k in r[1]) and (loud[2] == r[2] or (loud[2] != loud[2] and r[2] != r[2]))
+    if not same:
+        return [('%s|%s-changes-result' % (fn, what), 'silent call returned (%s, %r), the same call with %s returned (%s, %r)'
+                 % (jsonable(r[1]), r[2], what, jsonable(loud[1]), loud[2]))]
+    return []
+
 # ------------------------------------------------------------------------------------------------------------
 # ENUMERATION
 
@@ -324,6 +364,8 @@ def gen_enum(rng, budget):
         c['lo'] = arg_form(rng, lo, nodes); c['hi'] = arg_form(rng, hi, nodes)
         c['step'] = arg_form(rng, st, nodes); c['num'] = arg_form(rng, nu, nodes)
     c['objkind'], c['obj'] = gen_obj(rng, len(nodes))
+    c['objmag'], c['obj'] = gen_magnitude(rng, c['obj'])
+    if rng.random() < 0.2: c['loud'] = rng.choice([['print'], ['print'], ['bar'], ['print', 'bar']])
     c['mode'] = mode
     return c
 
@@ -355,14 +397,24 @@ def run_enum_impl(c, objective=None):
         v = oe_eval(c['obj'], [float(S[n]) for n in nodes], float) if objective is None else objective(S)
         calls.append(({n: S[n] for n in nodes}, v)); return v
     bsl = None if c['bsl'] is None else {int(k): (None if v is None else [pyval(x) for x in v]) for k, v in c['bsl'].items()}
+    def call(fn, **kw):
+        with contextlib.redirect_stdout(io.StringIO()), contextlib.redirect_stderr(io.StringIO()):
+            return meio_by_enumeration(net, base_stock_levels=bsl, truncation_lo=py_arg(c['lo']), truncation_hi=py_arg(c['hi']),
+                                       discretization_step=py_arg(c['step']), discretization_num=py_arg(c['num'], int),
+                                       groups=py_groups(c['groups']), objective_function=fn, **kw)
     try:
-        with contextlib.redirect_stdout(io.StringIO()):
-            S, cost = meio_by_enumeration(net, base_stock_levels=bsl, truncation_lo=py_arg(c['lo']), truncation_hi=py_arg(c['hi']),
-                                          discretization_step=py_arg(c['step']), discretization_num=py_arg(c['num'], int),
-                                          groups=py_groups(c['groups']), objective_function=f, progress_bar=False)
-        return ('ok', S, cost, calls)
+        S, cost = call(f, progress_bar=False)
     except Exception as e:
-        return ('err', exc_kind(e), str(e)[:200], calls)
+        return ('err', exc_kind(e), str(e)[:200], calls, None)
+    loud = None
+    if c.get('loud'):
+        # the same call with the reporting options switched on (print_solutions and / or progress_bar): they must not change the result
+        g = (lambda S_: oe_eval(c['obj'], [float(S_[n]) for n in nodes], float)) if objective is None else objective
+        try:
+            S2, cost2 = call(g, progress_bar='bar' in c['loud'], print_solutions='print' in c['loud']); loud = ('ok', S2, cost2)
+        except Exception as e:
+            loud = ('err', exc_kind(e), str(e)[:200])
+    return ('ok', S, cost, calls, loud)
 
 
 def enum_model_expr(c):
@@ -376,15 +428,17 @@ def enum_model_expr(c):
                coq_arg(c['num'], nodes, lambda v: cz(int(v))), oe_coq(c['obj'])))
 
 
-def enum_oracle(c, r):
-    """property monitors on the implementation's own output"""
+def enum_oracle(c, r, info=None):
+    """property monitors on the implementation's own output; info (optional dict) receives 'near_tie': two grid vectors whose distinct
+    objective values differ by less than 1e-5 of their size or by less than 1e-8"""
     nodes = c['nodes']; bad = []
     grids, og = enum_doc_grids(c)
     if r[0] == 'err':
         if grids is not None and all(len(g) > 0 for g in grids.values()):
             bad.append(('meio_by_enumeration|raises-%s' % r[1], 'valid input raises %s: %s' % (r[1], r[2])))
         return bad, False
-    _, S, cost, calls = r
+    _, S, cost, calls = r[:4]
+    bad += loud_oracle('meio_by_enumeration', c, r)
     if grids is None:
         return bad, False
     lv = {n: F(S[n]) for n in nodes}
@@ -414,6 +468,9 @@ def enum_oracle(c, r):
         bad.append(('meio_by_enumeration|better-grid-vector-exists', 'grid vector %s has objective %s < %s at the returned vector' % (jsonable(best[1]), best[0], exact)))
     if len(calls) != nvec:
         bad.append(('meio_by_enumeration|evaluation-count', 'objective evaluated %d times, documented grid has %d vectors' % (len(calls), nvec)))
+    if info is not None:
+        sv = sorted(vals)
+        info['near_tie'] = any(w - v <= max(Fraction(1, 10 ** 5) * max(abs(v), abs(w)), Fraction(1, 10 ** 8)) for v, w in zip(sv, sv[1:]))
     return bad, (nvec > 1 and len(vals) > 1)
 
 
@@ -428,10 +485,12 @@ def explore_enum(chk, n, budget, do_model=True):
     impl = [run_enum_impl(c) for c in cases]
     model = coq_eval_sharded('c19e', 'Base.Qx Alg.Enum', '', [enum_model_expr(c) for c in cases], shard=60) if do_model else [None] * n
     for c, r, m in zip(cases, impl, model):
-        chk.count('enum:nodes=%d' % len(c['nodes'])); chk.count('enum:mode=%s' % c['mode']); chk.count('enum:obj=%s' % c['objkind'])
+        chk.count('enum:nodes=%d' % len(c['nodes'])); chk.count('enum:mode=%s' % c['mode']); chk.count('enum:obj=%s' % c['objkind']); chk.count('enum:magnitude=%s' % c['objmag']); chk.count('enum:also-run-with=%s' % ('+'.join(c['loud']) if c.get('loud') else 'nothing'))
         chk.count('enum:groups=%s' % ('none' if c['groups'] is None else len(c['groups'])))
         chk.count('enum:set-order-sorted=%s' % (c['order'] == sorted(c['order'])))
-        bad, nontriv = enum_oracle(c, r)
+        info = {}
+        bad, nontriv = enum_oracle(c, r, info)
+        chk.count('enum:distinct-costs-within-1e-5-relative-or-1e-8=%s' % info.get('near_tie', 'n/a'))
         for sig, what in bad: chk.fail(sig, what, c)
         if do_model:
             chk.traces += 1
@@ -790,28 +849,44 @@ def explore_golden(chk, n, do_model=True):
 # ------------------------------------------------------------------------------------------------------------
 # COORDINATE DESCENT
 
+CD_MEAN = 5                # make_network: mean demand of the (single) sink node; every lead time is 1
+
+
 def gen_cd(rng):
     nodes = gen_nodes(rng)
     groups = gen_groups(rng, nodes)
-    og = doc_opt_group(nodes, groups)
+    og = doc_opt_group(nodes, groups); reps = sorted(set(og.values()))
     q = lambda lo, hi: Fraction(rng.randint(lo * 4, hi * 4), 4)
     lo_none = rng.random() < 0.12                                        # search_lo omitted -> 0
     lo = {n: (Fraction(0) if lo_none else q(-2, 6)) for n in nodes}; hi = {n: lo[n] + q(1, 12) for n in nodes}
+    # degenerate search ranges: search_lo == search_hi for some (or all) groups pins their level to that point, whatever the start
+    pinned = []
+    if rng.random() < 0.3:
+        pinned = [r for r in reps if rng.random() < 0.5] or [rng.choice(reps)]
+        for r in pinned: hi[r] = lo[r]
+    hi_none = not pinned and rng.random() < 0.08                         # search_hi omitted -> 3 * lead time * total mean demand
+    if hi_none: hi = {n: Fraction(3 * CD_MEAN) for n in nodes}
     for n in nodes: lo[n] = lo[og[n]]; hi[n] = hi[og[n]]
+    default_start = rng.random() < 0.15                                  # initial_solution omitted -> total mean demand at every node
     inside = rng.random() < 0.85
     init = {}
-    for n in nodes:
-        r = og[n]
-        if n == r:
-            init[n] = lo[r] + (hi[r] - lo[r]) * Fraction(rng.randint(0, 8), 8) if inside else (hi[r] + q(1, 5) if rng.random() < 0.5 else lo[r] - q(1, 5))
+    for r in reps:
+        if default_start: init[r] = Fraction(CD_MEAN)
+        elif inside and not (r in pinned and rng.random() < 0.5):
+            init[r] = lo[r] + (hi[r] - lo[r]) * Fraction(rng.randint(0, 8), 8)
+        else: init[r] = hi[r] + q(1, 5) if rng.random() < 0.5 else lo[r] - q(1, 5)
     for n in nodes: init[n] = init[og[n]]
+    inside = all(lo[r] <= init[r] <= hi[r] for r in reps)
     kind, obj = gen_obj(rng, len(nodes), convex=True)
     c = dict(kind='cd', nodes=nodes, groups=groups, objkind=kind, obj=obj, inside=inside,
              lo=arg_form(rng, {n: enc(lo[n]) for n in nodes}, nodes), hi=arg_form(rng, {n: enc(hi[n]) for n in nodes}, nodes),
-             init={str(n): enc(init[n]) for n in nodes}, tol=enc(rng.choice([Fraction(1, 100), Fraction(1, 100), Fraction(1, 2), Fraction(1, 1000), Fraction(0)])),
-             ls_tol=rng.choice([1e-4, 1e-4, 1e-2, 1e-6]))
+             init=None if default_start else {str(n): enc(init[n]) for n in nodes},
+             tol=enc(rng.choice([Fraction(1, 100), Fraction(1, 100), Fraction(1, 2), Fraction(1, 1000), Fraction(0)])),
+             ls_tol=rng.choice([1e-4, 1e-4, 1e-2, 1e-6]), pinned=pinned)
+    if rng.random() < 0.2: c['loud'] = True
     if lo_none: c['lo'] = ['none']
-    elif rng.random() < 0.1:
+    if hi_none: c['hi'] = ['none']
+    elif not lo_none and rng.random() < 0.1:
         # search range given as (upper end, lower end): golden_section_search takes the end points of its interval in either
         # order, and so does every line search of coordinate descent; the search box is [min, max] per node
         c['lo'], c['hi'] = c['hi'], c['lo']; c['swapped'] = True
@@ -821,10 +896,16 @@ def gen_cd(rng):
 def cd_bounds(c):
     nodes = c['nodes']
     lo = {n: (Fraction(0) if arg_get(c['lo'], nodes, n) is None else dec(arg_get(c['lo'], nodes, n))) for n in nodes}
-    hi = {n: dec(arg_get(c['hi'], nodes, n)) for n in nodes}
+    hi = {n: (Fraction(3 * CD_MEAN) if arg_get(c['hi'], nodes, n) is None else dec(arg_get(c['hi'], nodes, n))) for n in nodes}
     for n in nodes:
         if hi[n] < lo[n]: lo[n], hi[n] = hi[n], lo[n]                    # ends given the other way round: same box
     return lo, hi
+
+
+def cd_init(c):
+    """starting vector: the one given, or the documented default (total mean demand of the sink nodes at every node)"""
+    if c['init'] is None: return {n: Fraction(CD_MEAN) for n in c['nodes']}
+    return {n: dec(c['init'][str(n)]) for n in c['nodes']}
 
 
 def run_cd_impl(c):
@@ -835,24 +916,34 @@ def run_cd_impl(c):
     def wrapped(f, a, b, tol=1e-5, verbose=False):
         x, y = orig(f, a, b, tol=tol, verbose=verbose); log.append((x, y, a, b, tol)); return x, y
     def obj(S): return oe_eval(c['obj'], [float(S[n]) for n in nodes], float)
+    def call(**kw):
+        with contextlib.redirect_stdout(io.StringIO()):
+            return meio_by_coordinate_descent(net, initial_solution=None if c['init'] is None else {int(k): pyval(v) for k, v in c['init'].items()},
+                                              search_lo=py_arg(c['lo']), search_hi=py_arg(c['hi']), groups=py_groups(c['groups']),
+                                              objective_function=obj, tol=float(dec(c['tol'])), line_search_tol=c['ls_tol'], **kw)
     opt.golden_section_search = wrapped
     try:
-        with contextlib.redirect_stdout(io.StringIO()):
-            S, cost = meio_by_coordinate_descent(net, initial_solution={int(k): pyval(v) for k, v in c['init'].items()},
-                                                 search_lo=py_arg(c['lo']), search_hi=py_arg(c['hi']), groups=py_groups(c['groups']),
-                                                 objective_function=obj, tol=float(dec(c['tol'])), line_search_tol=c['ls_tol'])
-        return ('ok', S, cost, log)
+        S, cost = call()
     except Exception as e:
-        return ('err', exc_kind(e), str(e)[:200], log)
+        return ('err', exc_kind(e), str(e)[:200], log, None)
     finally:
         opt.golden_section_search = orig
+    loud = None
+    if c.get('loud'):
+        # the same call with verbose=True: the messages must not change the result
+        try:
+            S2, cost2 = call(verbose=True); loud = ('ok', S2, cost2)
+        except Exception as e:
+            loud = ('err', exc_kind(e), str(e)[:200])
+    return ('ok', S, cost, log, loud)
 
 
 def cd_oracle(c, r):
     bad = []; nodes = c['nodes']
     if r[0] == 'err':
         return [('meio_by_coordinate_descent|raises-%s' % r[1], r[2])], False
-    _, S, cost, log = r
+    _, S, cost, log = r[:4]
+    bad += loud_oracle('meio_by_coordinate_descent', c, r)
     lo, hi = cd_bounds(c); og = doc_opt_group(nodes, c['groups'])
     lv = {n: F(S[n]) for n in nodes}
     for n in nodes:
@@ -869,7 +960,7 @@ def cd_oracle(c, r):
             bad.append(('meio_by_coordinate_descent|line-search-tol', 'golden_section_search called with tol=%r, line_search_tol=%r' % (tol, c['ls_tol']))); break
     groups_n = len(set(og.values()))
     if c['inside']:
-        init = [dec(c['init'][str(n)]) for n in nodes]
+        st = cd_init(c); init = [st[n] for n in nodes]
         f0 = oe_eval(c['obj'], init)
         box = [(lo[og[n]], hi[og[n]]) for n in nodes]
         L = max([oe_bounds(c['obj'], box, [i for i, n in enumerate(nodes) if og[n] == r_])[2] for r_ in set(og.values())] + [Fraction(0)])
@@ -893,10 +984,15 @@ def explore_cd(chk, n, do_model=True):
         al = lambda d: clist(['(%s, %s)' % (cnat(n_), cq(d[n_])) for n_ in nodes])
         exprs.append('option_map (fun r => (map qobs (fst r), qobs (snd r))) (cd_Q %s %s %s %s %s %s %s %s %s)'
                      % (clist([cnat(n_) for n_ in nodes]), oe_coq(c['obj']), cqlist(xs), al(lo), al(hi), cnat(fuel), coq_groups(c['groups']),
-                        al({n_: dec(c['init'][str(n_)]) for n_ in nodes}), cq(dec(c['tol']))))
+                        al(cd_init(c)), cq(dec(c['tol']))))
     model = coq_eval_sharded('c19c', 'Base.Qx Alg.CoordDesc', '', exprs, shard=25) if do_model else [None] * n
     for c, r, m in zip(cases, impl, model):
         chk.count('cd:nodes=%d' % len(c['nodes'])); chk.count('cd:obj=%s' % c['objkind']); chk.count('cd:start-inside=%s' % c['inside']); chk.count('cd:range-ends-swapped=%s' % bool(c.get('swapped')))
+        lo_, hi_ = cd_bounds(c); og_ = doc_opt_group(c['nodes'], c['groups']); st_ = cd_init(c); reps_ = sorted(set(og_.values()))
+        npin = sum(1 for r_ in reps_ if lo_[r_] == hi_[r_])
+        chk.count('cd:single-point-ranges=%s' % ('none' if npin == 0 else 'all' if npin == len(reps_) else 'some'))
+        if npin: chk.count('cd:single-point-range-start=%s' % ('on-the-point' if all(st_[r_] == lo_[r_] for r_ in reps_ if lo_[r_] == hi_[r_]) else 'elsewhere'))
+        chk.count('cd:initial_solution=%s' % ('omitted' if c['init'] is None else 'given')); chk.count('cd:also-run-verbose=%s' % bool(c.get('loud'))); chk.count('cd:search_hi=%s' % ('omitted' if c['hi'][0] == 'none' else 'given'))
         bad, nontriv = cd_oracle(c, r)
         for sig, what in bad: chk.fail(sig, what, c)
         if r[0] == 'ok':
@@ -918,7 +1014,7 @@ def explore_cd(chk, n, do_model=True):
 def cd_near_tie(c, r):
     """does some sweep end within 1e-9 (relative) of the stopping threshold best_cost = current_cost - tol ?"""
     nodes = c['nodes']; og = doc_opt_group(nodes, c['groups']); G = len(set(og.values())); tol = dec(c['tol'])
-    cc = oe_eval(c['obj'], [dec(c['init'][str(n)]) for n in nodes])
+    st = cd_init(c); cc = oe_eval(c['obj'], [st[n] for n in nodes])
     ys = [F(t[1]) for t in r[3]]
     for s in range(len(ys) // G):
         bc = ys[(s + 1) * G - 1]
@@ -1021,12 +1117,17 @@ def sim_one(chk, c):
 # SIMULATION OBJECTIVE, SEED HANDLING: the seeded simulation is a deterministic objective; sim_rand_seed (incl. 0) must make
 # meio_by_enumeration reproducible and its reported cost the seeded objective at the returned vector
 
-def seeded_sim_cost(c, S):
+def seeded_sim_cost(c, S, reading='own'):
     """independent evaluation of the documented simulation objective: seed the generator with sim_rand_seed, then one
-    simulation per trial seeded with the next randint(1, 10000); mean of (total cost / periods)"""
+    simulation per trial seeded with the next randint(1, 10000); mean of (total cost / periods).  The vector S is put on a fresh
+    network: reading 'own' = S[n] is the base-stock level of node n's policy (its echelon base-stock level under an echelon policy);
+    reading 'local' (echelon policies only) = S are local levels, converted by local_to_echelon_base_stock_levels"""
     import numpy as np
     from stockpyl.sim import simulation
-    net = make_network(c['nodes'], mean=c['mean'], sd=c['sd'])
+    net = make_network(c['nodes'], mean=c['mean'], sd=c['sd'], policy=c.get('policy', 'BS'))
+    if reading == 'local':
+        from stockpyl.supply_chain_network import local_to_echelon_base_stock_levels
+        S = local_to_echelon_base_stock_levels(net, dict(S))
     for nd in net.nodes: nd.inventory_policy.base_stock_level = S[nd.index]
     np.random.seed(c['seed'])
     avg = []
@@ -1086,13 +1187,114 @@ def sim_seed_cases(chk, thorough):
         specs.append(dict(kind='simseed', nodes=nodes, groups=[sorted(rng.sample(nodes, 2))] if grouped else None, grid=grid, mean=mean, sd=rng.choice([1, 2]), pre=pre,
                           seed=seed, trials=rng.choice([2, 3]), periods=rng.choice([20, 30]) if not thorough else rng.choice([30, 100]),
                           global_states=[rng.randint(1, 10 ** 6), rng.randint(1, 10 ** 6)]))
+    for _ in range(1 if not thorough else 4):
+        # fine grid: for a fixed seed the simulated cost is piecewise linear in a level, so on a grid with a tiny (dyadic) step the
+        # costs of neighbouring vectors differ by a tiny fraction of the cost -- the returned vector must still be the exact minimiser
+        mean = rng.choice([4, 5, 6]); nodes = [1] if rng.random() < 0.6 else [2, 1]
+        step = 2.0 ** -rng.choice([12, 16, 18, 20, 24, 30]); base = mean + rng.randint(-8, 24) / 8; k = rng.randint(5, 9)
+        levels = [base + i * step for i in range(k)]
+        if rng.random() < 0.5: rng.shuffle(levels)
+        grid = {'1': levels}
+        if len(nodes) == 2: grid['2'] = [mean + rng.randint(0, 3)]
+        specs.append(dict(kind='simseed', nodes=nodes, groups=None, grid=grid, mean=mean, sd=rng.choice([1, 2]), pre={str(n): mean for n in nodes},
+                          seed=rng.choice([0, rng.randint(1, 10 ** 6)]), trials=rng.choice([2, 3]), periods=rng.choice([20, 30]) if not thorough else rng.choice([30, 100]),
+                          global_states=[rng.randint(1, 10 ** 6), rng.randint(1, 10 ** 6)], fine_step=step))
     for c in specs:
+        chk.count('simseed:grid=%s' % ('fine-step-2^%d' % round(math.log2(c['fine_step'])) if c.get('fine_step') else 'two-integer-levels'))
         chk.count('simseed:seed=%s' % ('0' if c['seed'] == 0 else 'nonzero')); chk.count('simseed:groups=%s' % ('none' if c['groups'] is None else 'pair-of-%d-nodes' % len(c['nodes'])))
         try:
             nontriv = simseed_one(chk, c)
         except Exception as e:
             nontriv = False
             chk.fail('meio_by_enumeration|sim-raises-%s' % exc_kind(e), '%s: %s' % (type(e).__name__, str(e)[:300]), c)
+        chk.case(c, nontriv)
+
+# ------------------------------------------------------------------------------------------------------------
+# SIMULATION OBJECTIVE OF BOTH SEARCHES, BASE-STOCK AND ECHELON BASE-STOCK POLICIES: without objective_function the objective is the
+# seeded simulation of the network with the candidate levels put on the nodes' policies, whatever the policy type
+
+def simopt_one(chk, c):
+    import numpy as np
+    from stockpyl.meio_general import meio_by_enumeration, meio_by_coordinate_descent
+    nodes = c['nodes']; pol = c['policy']; algo = c['algo']
+    og = doc_opt_group(nodes, c['groups']); reps = sorted(set(og.values()))
+    fn = 'meio_by_enumeration' if algo == 'enum' else 'meio_by_coordinate_descent'
+    np.random.seed(c['global_state']); np.random.random(c['global_state'] % 7)      # some position of the global stream before the call
+    net = make_network(nodes, mean=c['mean'], sd=c['sd'], policy=pol)
+    for nd in net.nodes: nd.inventory_policy.base_stock_level = c['pre'][str(nd.index)]   # levels sitting on the network before the search
+    sim = dict(sim_num_trials=c['trials'], sim_num_periods=c['periods'], sim_rand_seed=c['seed'])
+    with contextlib.redirect_stdout(io.StringIO()):
+        if algo == 'enum':
+            grid = {int(k): v for k, v in c['grid'].items()}
+            S, cost = meio_by_enumeration(net, base_stock_levels={r_: grid[r_] for r_ in reps}, groups=py_groups(c['groups']), progress_bar=False, **sim)
+        else:
+            S, cost = meio_by_coordinate_descent(net, initial_solution=None if c['init'] is None else {int(k): v for k, v in c['init'].items()},
+                                                 search_lo={int(k): v for k, v in c['lo'].items()}, search_hi={int(k): v for k, v in c['hi'].items()},
+                                                 groups=py_groups(c['groups']), tol=c['tol'], line_search_tol=c['ls_tol'], **sim)
+    S = {n: S[n] for n in nodes}
+    feat = pol + ('-seed=0' if c['seed'] == 0 else '')
+    for g in c['groups'] or []:
+        if len({S[n] for n in g}) > 1:
+            chk.fail('%s|sim-group-levels-differ' % fn, 'nodes %s of one group got levels %s' % (g, [S[n] for n in g]), c)
+    # reported cost = seeded objective at the returned vector (an echelon policy: either reading of the vector is accepted)
+    readings = ['own'] if pol == 'BS' else ['own', 'local']
+    at = {rd: seeded_sim_cost(c, S, rd) for rd in readings}
+    rd = next((k for k in readings if at[k] == cost), None)
+    if rd is None:
+        chk.fail('%s|sim-%s-cost-not-objective-at-returned' % (fn, pol),
+                 'reported cost %r; seeded simulation objective (sim_rand_seed=%r, %s policies) at the returned vector %s is %s'
+                 % (cost, c['seed'], pol, S, ' / '.join('%r (levels read as %s)' % (at[k], k) for k in readings)), c)
+        return True
+    if algo == 'enum':
+        vectors = [{n: dict(zip(reps, cb))[og[n]] for n in nodes} for cb in itertools.product(*[grid[r_] for r_ in reps])]
+        if S not in vectors:
+            chk.fail('%s|sim-off-grid' % fn, 'returned %s is not a grid vector' % S, c); return True
+        objective = [(seeded_sim_cost(c, v, rd), v) for v in vectors]; best = min(objective, key=lambda t: t[0])
+        if best[0] < cost:
+            chk.fail('%s|sim-better-grid-vector-exists-%s' % (fn, feat), 'grid vector %s has seeded objective %r < %r at the returned vector %s' % (best[1], best[0], cost, S), c)
+        return len({o for o, _ in objective}) > 1
+    lo = {n: min(c['lo'][str(og[n])], c['hi'][str(og[n])]) for n in nodes}; hi = {n: max(c['lo'][str(og[n])], c['hi'][str(og[n])]) for n in nodes}
+    for n in nodes:
+        if not (lo[n] <= S[n] <= hi[n]):
+            chk.fail('%s|sim-outside-box' % fn, 'node %d level %r outside [%r, %r]' % (n, S[n], lo[n], hi[n]), c)
+    start = {n: (c['mean'] if c['init'] is None else c['init'][str(og[n])]) for n in nodes}       # default: total mean demand of the sink
+    if all(lo[n] <= start[n] <= hi[n] for n in nodes):
+        # along one level the seeded cost has slope at most (all holding costs + stockout cost) = len(nodes) + 10 here
+        f0 = seeded_sim_cost(c, start, rd); slack = len(reps) * (len(nodes) + 10) * c['ls_tol'] / 2 + 1e-2 * max(1.0, abs(f0))
+        if cost > f0 + slack:
+            chk.fail('%s|sim-worse-than-start-%s' % (fn, pol), 'cost %r > seeded objective at the start %s = %r (+ slack %.3g)' % (cost, start, f0, slack), c)
+    return True
+
+
+def sim_opt_cases(chk, thorough):
+    rng = chk.rng
+    plan = [('cd', 'BS'), ('cd', 'EBS'), ('enum', 'EBS')] + ([('cd', 'BS'), ('cd', 'BS'), ('cd', 'EBS'), ('enum', 'EBS'), ('enum', 'EBS'), ('cd', 'EBS')] if thorough else [])
+    for i, (algo, pol) in enumerate(plan):
+        nodes = [2, 1] if (not thorough or rng.random() < 0.7) else [3, 2, 1]
+        mean = rng.choice([4, 5, 6]); seed = 0 if (i + rng.randint(0, 1)) % 3 == 0 else rng.randint(1, 10 ** 6)
+        groups = [sorted(rng.sample(nodes, 2))] if rng.random() < 0.25 else None
+        # under an echelon policy a node's level covers the stock downstream of it as well: levels grow upstream
+        depth = {n: (len(nodes) - nodes.index(n) if pol == 'EBS' else 1) for n in nodes}
+        # (levels on the network before the call: never a grid level under an echelon policy, so that a search which leaves them in
+        # place is told apart from one that puts the returned vector there)
+        c = dict(kind='simopt', algo=algo, policy=pol, nodes=nodes, groups=groups, mean=mean, sd=rng.choice([1, 2]), seed=seed,
+                 trials=rng.choice([1, 2]), periods=rng.choice([15, 20]) if not thorough else rng.choice([30, 60]),
+                 pre={str(n): depth[n] * mean + rng.choice([-3.5, 0.5, 2.5, 5.5] if pol == 'EBS' else [-3, 0.5, 2, 5]) for n in nodes}, global_state=rng.randint(1, 10 ** 6))
+        if algo == 'enum':
+            c['grid'] = {str(n): sorted(rng.sample(range(depth[n] * mean - 2, depth[n] * mean + 6), 2)) for n in nodes}
+        else:
+            og = doc_opt_group(nodes, groups)
+            lo = {n: depth[n] * mean - rng.randint(1, 3) for n in nodes}; hi = {n: lo[n] + rng.randint(3, 6) for n in nodes}
+            for n in nodes: lo[n] = lo[og[n]]; hi[n] = hi[og[n]]
+            c['lo'] = {str(n): lo[n] for n in nodes}; c['hi'] = {str(n): hi[n] for n in nodes}
+            c['init'] = None if (pol == 'BS' and rng.random() < 0.3) else {str(n): lo[og[n]] + (hi[og[n]] - lo[og[n]]) * rng.randint(0, 4) / 4 for n in nodes}
+            c['tol'] = rng.choice([0.5, 0.1]); c['ls_tol'] = rng.choice([0.1, 0.05])
+        chk.count('simopt:%s-%s-policies' % (algo, pol)); chk.count('simopt:seed=%s' % ('0' if seed == 0 else 'nonzero'))
+        try:
+            nontriv = simopt_one(chk, c)
+        except Exception as e:
+            nontriv = False
+            chk.fail('%s|sim-%s-raises-%s' % ('meio_by_enumeration' if algo == 'enum' else 'meio_by_coordinate_descent', pol, exc_kind(e)), '%s: %s' % (type(e).__name__, str(e)[:300]), c)
         chk.case(c, nontriv)
 
 # ------------------------------------------------------------------------------------------------------------
@@ -1120,6 +1322,7 @@ def run(chk):
     explore_cd(chk, 90 if quick else 1800)
     sim_cases(chk, not quick)
     sim_seed_cases(chk, not quick)
+    sim_opt_cases(chk, not quick)
     if (chk.broken or chk.mismatches) and not chk.fails:
         # directed search for a failing input of the property: bigger budget, oracles only
         k = 6 if quick else 2
@@ -1141,6 +1344,8 @@ def replay(chk, rp):
         sim_one(chk, c); bad = []
     elif kind == 'simseed':
         simseed_one(chk, c); bad = []
+    elif kind == 'simopt':
+        simopt_one(chk, c); bad = []
     elif kind == 'groups':
         from stockpyl.meio_general import _base_stock_group_assignments
         og, gl = _base_stock_group_assignments(list(c['nodes']), py_groups(c['groups'])); print('implementation:', og, gl)
